@@ -524,6 +524,10 @@ def walk(u):
       elif not e.has_style(p_):
         bad("links", n, "%s iterates style %s but has_style() is false" % (n, pn))
     for s in e.iter_animation_steps():
+      if isinstance(e, model.Text):
+        # no style property applies to a text node (set_style refuses every one of them): no value is valid as its animation value
+        bad("invalid-value-stored:animation-step-on-text", n, "%s, a text node, stores the animation step %r" % (n, s))
+        continue
       if not isinstance(s, model.DiscreteAnimationStep):
         bad("invalid-value-stored", n, "%s stores the animation step %r" % (n, s))
         continue
